@@ -191,6 +191,23 @@ fn get_discriminator_id_as_i32(v: &DynamicData) -> XTypesResult<i32> {
 }
 
 struct EncodingVersion1;
+impl EncodingVersion1 {
+    /// Moves past the sentinel that ends the members of a mutable type. A member that has the
+    /// id of the sentinel but carries a value is not the sentinel
+    fn seek_to_sentinel<'a, E: EndiannessRead>(
+        deserializer: &mut XTypesDeserializer<'a, E, Self>,
+    ) -> XTypesResult<()> {
+        loop {
+            let current_pid: u16 = deserializer.deserialize_primitive_type()?;
+            let length: u16 = deserializer.deserialize_primitive_type()?;
+            if current_pid & 0b00111111_11111111 == PID_SENTINEL && length == 0 {
+                return Ok(());
+            }
+            deserializer.reader.seek(length as usize)?;
+            Self::align(deserializer, 4)?;
+        }
+    }
+}
 impl EncodingVersion for EncodingVersion1 {
     fn align<'a, E: EndiannessRead>(
         deserializer: &mut XTypesDeserializer<'a, E, Self>,
@@ -285,8 +302,7 @@ impl EncodingVersion for EncodingVersion1 {
         dynamic_data: &mut DynamicData,
     ) -> XTypesResult<()> {
         deserializer.deserialize_members(dynamic_data)?;
-        Self::seek_to_pid(deserializer, PID_SENTINEL)?;
-        Ok(())
+        Self::seek_to_sentinel(deserializer)
     }
 
     /// Member of mutable aggregated type (structure, union), version 1 encoding
@@ -337,7 +353,8 @@ impl EncodingVersion for EncodingVersion1 {
         deserializer: &mut XTypesDeserializer<'a, E, Self>,
         dynamic_data: &mut DynamicData,
     ) -> XTypesResult<()> {
-        deserializer.deserialize_munion_members(dynamic_data)
+        deserializer.deserialize_munion_members(dynamic_data)?;
+        Self::seek_to_sentinel(deserializer)
     }
 
     /// Extensibility APPENDABLE (Collection or Aggregated types), version 1
